@@ -1,5 +1,6 @@
 import PysphVerif.Driver.Common
 import PysphVerif.Model.GaussJordan
+import PysphVerif.Model.Eigen3
 /-!
 Line protocol for C13.  Doubles travel as bit patterns (`x<16 hex>`), rationals as `p/q`.
 
@@ -12,6 +13,18 @@ Line protocol for C13.  Doubles travel as bit patterns (`x<16 hex>`), rationals 
   `matvec n=<nat> a=<fl> b=<fl> r=<fl>`            → `<fl>`
   `aug n=<nat> na=<nat> nmax=<nat> A=<fl> b=<fl> r=<fl>` → `<fl>`
 Arrays too small for the indices the code touches answer `error` (Python raises IndexError).
+
+Eigen-decomposition (Model/Eigen3.lean at Float, `fabs = Float.abs`, `sqrt = Float.sqrt`);
+3×3 matrices are 9 doubles row-major, vectors 3 doubles; `eps` is the literal `2.0**-52.0`,
+`big` the literal `1e8`, `fuel` the number of QL sweeps allowed per eigenvalue:
+`hyp=naive|safe` selects the body of `hypot2` (pinned `sqrt(x*x+y*y)` / repaired, overflow-safe):
+  `eig   hyp=<h> eps=<f> fuel=<nat> A=<fl9>`        → `ok V=<fl9> d=<fl3> log=<nats> drops=<fl>` | `err=noconv l=<l>` | `err=mout l=<l>`
+      (`drops` = the sub-diagonal entries replaced by 0.0, relative to the scaled matrix; newest first)
+  `tred2 V=<fl9>`                                   → `V=<fl9> d=<fl3> e=<fl3> log=<nats>`
+  `tql2  hyp=<h> eps=<f> fuel=<nat> V=<fl9> d=<fl3> e=<fl3>` → as `eig`
+  `eigvv hyp=<h> eps=<f> big=<f> fuel=<nat> A=<fl9> ev=<fl3>` → `path=diag V= d=` | `path=iter <as eig>` | `path=closed d=<fl3>`
+  `tdi   d=<fl3> P=<fl9>`                           → `<fl9>`                         (transform_diag_inv)
+A list of the wrong length answers `bad-op`.
 -/
 namespace PysphVerif.Driver.C13
 open PysphVerif.Wire PysphVerif.GaussJordan
@@ -27,6 +40,74 @@ def showQl (a : Array Rat) : String := showList showRat a.toList
 
 def showOutcome (o : Outcome Float) : String :=
   s!"ret={if o.singular then 1 else 0} res={showFl o.result} m={match o.m with | none => "-" | some m => showFl m}"
+
+open PysphVerif.Eigen3 in
+def fl9 (kv : List (String × String)) (k : String) : Option (Mat Float) := do
+  let l ← (lookup kv k) >>= parseList? parseFloatBits?
+  if l.length = 9 then pure (Mat.ofList 0 l) else none
+open PysphVerif.Eigen3 in
+def fl3 (kv : List (String × String)) (k : String) : Option (Vec Float) := do
+  let l ← (lookup kv k) >>= parseList? parseFloatBits?
+  if l.length = 3 then pure (Vec.ofList 0 l) else none
+
+def showNats (l : List Nat) : String := showList toString l
+
+open PysphVerif.Eigen3 in
+def showErr : Err → String
+  | .noConv l => s!"err=noconv l={l}"
+  | .mOut l => s!"err=mout l={l}"
+
+open PysphVerif.Eigen3 in
+def showEig (r : Except Err (Out Float)) : String :=
+  match r with
+  | .error e => showErr e
+  | .ok o => s!"ok V={showList showFloatBits (Mat.toList o.V)} d={showList showFloatBits (Vec.toList o.d)} log={showNats o.log} drops={showList showFloatBits (o.drops.map (fun x => x.1))}"
+
+open PysphVerif.Eigen3 in
+def hypOf (kv : List (String × String)) : Option (Float → Float → Float) :=
+  match lookup kv "hyp" with
+  | some "naive" => some (hypotNaive Float.sqrt)
+  | some "safe" => some (hypotSafe Float.abs Float.sqrt)
+  | _ => none
+
+open PysphVerif.Eigen3 in
+def handleEig (cmd : String) (kv : List (String × String)) : Option String :=
+  if cmd = "eig" then do
+    let hyp ← hypOf kv
+    let eps ← (lookup kv "eps") >>= parseFloatBits?
+    let fuel ← nat kv "fuel"
+    let A ← fl9 kv "A"
+    pure (showEig (eigenDecomposition Float.abs Float.sqrt hyp eps fuel A))
+  else if cmd = "tred2" then do
+    let V ← fl9 kv "V"
+    let s := tred2 Float.abs Float.sqrt { V := V, d := Vec.ofFn (fun _ => 0), e := Vec.ofFn (fun _ => 0), log := [] }
+    pure s!"V={showList showFloatBits (Mat.toList s.V)} d={showList showFloatBits (Vec.toList s.d)} e={showList showFloatBits (Vec.toList s.e)} log={showNats s.log}"
+  else if cmd = "tql2" then do
+    let hyp ← hypOf kv
+    let eps ← (lookup kv "eps") >>= parseFloatBits?
+    let fuel ← nat kv "fuel"
+    let V ← fl9 kv "V"
+    let d ← fl3 kv "d"
+    let e ← fl3 kv "e"
+    match tql2 Float.abs hyp eps fuel { V := V, d := d, e := e, log := [] } with
+    | .error er => pure (showErr er)
+    | .ok t => pure (showEig (.ok { V := t.V, d := t.d, log := t.log, drops := t.drops }))
+  else if cmd = "eigvv" then do
+    let hyp ← hypOf kv
+    let eps ← (lookup kv "eps") >>= parseFloatBits?
+    let big ← (lookup kv "big") >>= parseFloatBits?
+    let fuel ← nat kv "fuel"
+    let A ← fl9 kv "A"
+    let ev ← fl3 kv "ev"
+    match getEigenvalvec Float.abs Float.sqrt hyp eps big fuel A ev with
+    | .diag o => pure s!"path=diag V={showList showFloatBits (Mat.toList o.V)} d={showList showFloatBits (Vec.toList o.d)}"
+    | .iter r => pure s!"path=iter {showEig r}"
+    | .closedForm ev => pure s!"path=closed d={showList showFloatBits (Vec.toList ev)}"
+  else if cmd = "tdi" then do
+    let d ← fl3 kv "d"
+    let P ← fl9 kv "P"
+    pure (showList showFloatBits (Mat.toList (transformDiagInv d P)))
+  else none
 
 def handle (line : String) : String :=
   match tokens line with
@@ -86,7 +167,7 @@ def handle (line : String) : String :=
         if n > nmax ∨ (n > 0 ∧ A.size < nmax * (n - 1) + n) ∨ b.size < na * n ∨ res.size < (n + na) * n
         then pure "error"
         else pure (showFl (augmentedMatrix A b n na nmax res))
-      else none
+      else handleEig cmd kv
     r.getD "bad-op"
 
 end PysphVerif.Driver.C13
